@@ -5,6 +5,17 @@ VERIF = os.path.dirname(os.path.dirname(os.path.abspath(__file__)))
 props = [json.loads(l) for l in open(os.path.join(VERIF, "properties.jsonl"))]
 
 CLAIMED = {
+    "C04": dict(
+        text="ModelLang.tla specifies the language generatively: structured models are the meaning, Expand gives the documented meaning of every "
+             "pseudofunction, Render produces the source for each combination of 12 syntactic choices (keyword spellings/shortcuts, brackets, "
+             "= / :=, ^ / **, separators, comments and continuations, !log-variables list / !all-but, pseudofunction spellings and default shifts, "
+             "!for anonymous/named/contextual, !if / !else, $substitutions$, !! variants, descriptions); TLC checks that expansion is total and that "
+             "the base models are never confused. Every rendered text is parsed by Simultaneous.from_string and compared with the meaning (names by "
+             "kind and order, descriptions, log status, every dynamic and steady equation on random data against the expanded trees); all "
+             "renderings of one model must yield the same model.",
+        note="Trusted: TLC, the harness' tree evaluator. Bounds: 4 structured models, 124k renderings (quick: every 40th choice vector, all "
+             "alternatives covered). Macro arguments with more than one level of parentheses, Jinja, autoswaps, pre/post-processors not covered.",
+        design="5/C04", technique="TLA+ generative spec (ModelLang) checked by TLC; every TLC-rendered source replayed into irispie's parser"),
     "C02": dict(
         text="Aldi.tla defines derivative trees by the textbook rules and, independently, forward-mode dual numbers; on the rational fragment TLC "
              "evaluates both exactly and checks that they agree for every enumerated tree and occurrence. Every tree becomes an equation of a "
